@@ -112,6 +112,13 @@ def streams_for(prop):
         import ref_history
         orc = ref_history.check_C13 if prop == "C13" else ref_history.check_C15
         S.append(dict(name="history", gen=gen_history.gen_history, impl=ia.run, oracle=orc))
+        if prop == "C13":
+            # a refused import from a DataFrame leaves the target array as it was
+            import gen_table
+            import impl_table
+            import ref_table
+            S.append(dict(name="table", gen=gen_table.gen_table, impl=impl_table.run, mode="spec",
+                          oracle=ref_table.check_C12, always_oracle=True))
         if prop == "C15":
             import gen_index
             S.append(dict(name="index", gen=gen_index.gen_index, impl=ia.run, oracle=ra.check_case))
